@@ -27,13 +27,13 @@ type fcase struct {
 	Bal    string `json:"balancer"`
 }
 
-var modes = []string{"zero-healthy", "unknown-model", "all-refuse", "all-reset", "all-eof", "all-garbage", "backend-400", "backend-404", "backend-429", "backend-500", "backend-503", "backend-500-nonjson", "malformed-200-json", "empty-200", "200-empty-object", "200-no-choices", "200-choice-without-message", "200-error-member-only"}
+var modes = []string{"zero-healthy", "unknown-model", "all-refuse", "all-reset", "all-eof", "all-garbage", "backend-400", "backend-404", "backend-429", "backend-500", "backend-503", "backend-500-nonjson", "backend-500-large", "backend-400-huge-chunked", "malformed-200-json", "empty-200", "200-empty-object", "200-no-choices", "200-choice-without-message", "200-error-member-only"}
 var routes = []string{"proxy", "provider", "passthrough", "translated"}
 
 func TestC05(t *testing.T) {
 	world.Quiet()
 	run := rep.New("C05", "fault_enumeration",
-		"every failure mode (no healthy endpoint, unknown model, every candidate refusing / resetting / closing without answer / answering garbage, backend 400/404/429/500/503 with JSON and non-JSON error bodies, malformed or empty 200 bodies) x route family (proxy, provider, Anthropic passthrough, Anthropic translated) x stream flag x engine (thorough: x balancer x 20 repetitions, because the streaming pipe hand-off is schedule-dependent); proxy timeouts are 30 s so that 'waited for a timeout' is visible; oracle: non-2xx with a non-empty error body, completion within 10 s (healthy: milliseconds), Anthropic error object with Content-Type application/json for errors Olla produces on the Anthropic routes (streaming too, no message_start..message_stop sequence), backend 4xx/5xx status unchanged. distinct = distinct grid cell")
+		"every failure mode (no healthy endpoint, unknown model, every candidate refusing / resetting / closing without answer / answering garbage, backend 400/404/429/500/503 with JSON and non-JSON error bodies of 60 B, 21 KB and 300 KB (chunked), malformed or empty 200 bodies) x route family (proxy, provider, Anthropic passthrough, Anthropic translated) x stream flag x engine (thorough: x balancer x 20 repetitions, because the streaming pipe hand-off is schedule-dependent); proxy timeouts are 30 s so that 'waited for a timeout' is visible; oracle: non-2xx with a non-empty error body, completion within 10 s (healthy: milliseconds), Anthropic error object with Content-Type application/json for errors Olla produces on the Anthropic routes (streaming too, no message_start..message_stop sequence), backend 4xx/5xx status unchanged. distinct = distinct grid cell")
 	run.Assume("the 10 s completion bound is one third of the smallest configured timeout (30 s) and ~1000x the healthy value; a machine slow enough to miss it would also trip the 30 s timeouts")
 	engines := []string{"sherpa", "olla"}
 	bals := []string{"priority"}
@@ -148,9 +148,21 @@ func oneCase(run *rep.Run, w *world.World, hc *http.Client, bA, bB *backend.Std,
 		if strings.HasSuffix(c.Mode, "nonjson") {
 			body, ct = []byte("<html>Internal Server Error</html>"), "text/html"
 		}
+		chunked := false
+		switch {
+		case strings.HasSuffix(c.Mode, "-large"): // beyond any small read buffer
+			body = []byte(fmt.Sprintf(`{"error":{"message":"backend says %d %s","type":"backend_error"}}`, wantStatus, strings.Repeat("detail ", 3000)))
+		case strings.HasSuffix(c.Mode, "-huge-chunked"):
+			body = []byte(fmt.Sprintf(`{"error":{"message":"backend says %d %s","type":"backend_error"}}`, wantStatus, strings.Repeat("stack frame; ", 24000)))
+			chunked = true
+		}
 		st := wantStatus
 		target.SetProxy(func(*backend.Record) *backend.Resp {
-			return &backend.Resp{Status: st, Body: body, Headers: [][2]string{{"Content-Type", ct}}}
+			r := &backend.Resp{Status: st, Body: body, Headers: [][2]string{{"Content-Type", ct}}, Chunked: chunked}
+			if chunked {
+				r.Writes = []int{4096, 4096, 60000, 100000}
+			}
+			return r
 		})
 		ollaMade = c.Route == "translated" // elsewhere the backend's own answer is relayed
 	case c.Mode == "malformed-200-json":
